@@ -261,6 +261,8 @@ pub(crate) static mut Q_PUSHES: usize = 0;
 pub(crate) static mut Q_POPS: usize = 0;
 /// called at the registration point (after the push) — lets a harness sample shared state there
 pub(crate) static mut ON_Q_PUSH: Option<fn()> = None;
+/// called before every pop — lets a harness run an environment step there
+pub(crate) static mut ON_Q_POP: Option<fn()> = None;
 
 pub(crate) fn gq_reset() {
     unsafe {
@@ -269,6 +271,7 @@ pub(crate) fn gq_reset() {
         Q_PUSHES = 0;
         Q_POPS = 0;
         ON_Q_PUSH = None;
+        ON_Q_POP = None;
     }
 }
 
@@ -290,6 +293,9 @@ fn gq_push_erased<T>(v: T) {
 
 fn gq_pop_erased<T>() -> Option<T> {
     unsafe {
+        if let Some(f) = ON_Q_POP {
+            f();
+        }
         if GQ_HEAD == GQ_TAIL {
             return None;
         }
